@@ -58,7 +58,7 @@ theorem Inv2.i2b_congr {j : Job} {cl : Cluster} {s s' : Sys} (h : Inv2 j cl s)
   · intro w t hf; rw [hq, hran]; exact h.flight_queued_or_ran w t ((hfl w t).mp hf)
   · intro w ds; exact Nat.le_trans (hev _) (h.ev_count w ds)
   · intro w ds he; rw [hran]; exact h.ev_ran w ds (hmem _ he)
-  · intro w ds he hl; rw [hfl]; exact h.ev_last_flight w ds (hmem _ he) hl
+  · intro w ds he; rw [hfl]; exact h.ev_flight w ds (hmem _ he)
   · intro ds t ht hd; rw [hdone] at hd; rw [hptd, hpt]; exact h.ptrack_sound ds t ht hd
   · intro ds hds
     obtain ⟨a, b, c⟩ := h.purgeQ_ok ds (hpq ds hds)
